@@ -16,10 +16,19 @@ SigSet == [kid : SigKeys, by : SigKeys, ok : BOOLEAN]
 \* one signature repeated with another one in between (non-adjacent duplicates)
 SplitDups == {<<a, b, a>> : a \in SigSet, b \in SigSet}
 
+\* "ku": an authorised key for which no signature can ever be valid (its scheme is not implemented); entries that
+\* claim its id are made by someone else.  Such an entry never counts - and never stands in the way of the others.
+KuAuth == {<<"ku">>, <<"k1", "ku">>, <<"ku", "k1">>, <<"k1", "k2", "ku">>, <<"ku", "k2", "k1">>}
+KuEntry == {[kid |-> "ku", by |-> "k1", ok |-> TRUE], [kid |-> "ku", by |-> "kx", ok |-> FALSE]}
+KuSigs == {<<e>> : e \in KuEntry}
+          \cup {<<e, [kid |-> "k1", by |-> "k1", ok |-> TRUE]>> : e \in KuEntry}
+          \cup {<<[kid |-> "k1", by |-> "k1", ok |-> TRUE], e>> : e \in KuEntry}
+          \cup {<<[kid |-> "k2", by |-> "k2", ok |-> TRUE], e, [kid |-> "k1", by |-> "k1", ok |-> TRUE]>> : e \in KuEntry}
+
 MCInit ==
   /\ t \in Thresholds
-  /\ auth \in SeqsUpTo(Keys, MaxAuth)
-  /\ sigs \in SeqsUpTo(SigSet, MaxSigs) \cup SplitDups
+  /\ \/ auth \in SeqsUpTo(Keys, MaxAuth) /\ sigs \in SeqsUpTo(SigSet, MaxSigs) \cup SplitDups
+     \/ auth \in KuAuth /\ sigs \in KuSigs
   /\ MInitRest
 
 MCSpec == MCInit /\ [][MNext]_mvars
